@@ -6,190 +6,190 @@ open ImathVerif
 
 /-- extracted from the C++ template at T = Sym; 1 path(s) -/
 def C07.Frustum.projectionMatrix_persp {α : Type} [Add α] [Sub α] [Mul α] [Div α] [Neg α] [OfNat α 0] [OfNat α 1] [OfNat α 2] (n : α) (f : α) (l : α) (r : α) (t : α) (b : α) : (M44 α) :=
-  let t676 := (r - l)
-  let t678 := (t - b)
-  let t680 := (f - n)
-  let t690 := ((2 : α) * n)
-  ⟨(t690 / t676), (0 : α), (0 : α), (0 : α), (0 : α), (t690 / t678), (0 : α), (0 : α), ((r + l) / t676), ((t + b) / t678), ((-(f + n)) / t680), (-(1 : α)), (0 : α), (0 : α), ((((-(2 : α)) * f) * n) / t680), (0 : α)⟩
+  let t674 := (r - l)
+  let t676 := (t - b)
+  let t678 := (f - n)
+  let t688 := ((2 : α) * n)
+  ⟨(t688 / t674), (0 : α), (0 : α), (0 : α), (0 : α), (t688 / t676), (0 : α), (0 : α), ((r + l) / t674), ((t + b) / t676), ((-(f + n)) / t678), (-(1 : α)), (0 : α), (0 : α), ((((-(2 : α)) * f) * n) / t678), (0 : α)⟩
 
 /-- extracted from the C++ template at T = Sym; 27 path(s) -/
 def C07.Frustum.projectionMatrixExc_persp {α : Type} [Add α] [Sub α] [Mul α] [Div α] [Neg α] [LT α] [DecidableLT α] [OfNat α 0] [OfNat α 1] [OfNat α 2] (tmax : α) (n : α) (f : α) (l : α) (r : α) (t : α) (b : α) : Except Exc (M44 α) :=
-  let t675 := (r + l)
-  let t676 := (r - l)
-  let t677 := (t + b)
-  let t678 := (t - b)
-  let t679 := (f + n)
-  let t680 := (f - n)
-  let t681 := (t675 / t676)
-  let t682 := (t677 / t678)
-  let t684 := ((-t679) / t680)
-  let t687 := (((-(2 : α)) * f) * n)
-  let t688 := (t687 / t680)
-  let t690 := ((2 : α) * n)
-  let t691 := (t690 / t676)
-  let t692 := (t690 / t678)
-  let t694 := (sabs t676)
-  let t695 := (tmax * t694)
-  let t696 := (sabs t675)
-  let t697 := (sabs t678)
-  let t698 := (tmax * t697)
-  let t699 := (sabs t677)
-  let t700 := (sabs t680)
-  let t701 := (tmax * t700)
-  let t702 := (sabs t679)
-  let t703 := (sabs t687)
-  let t704 := (sabs t690)
-  if t694 < (1 : α) then
-    if t695 < t696 then
+  let t673 := (r + l)
+  let t674 := (r - l)
+  let t675 := (t + b)
+  let t676 := (t - b)
+  let t677 := (f + n)
+  let t678 := (f - n)
+  let t679 := (t673 / t674)
+  let t680 := (t675 / t676)
+  let t682 := ((-t677) / t678)
+  let t685 := (((-(2 : α)) * f) * n)
+  let t686 := (t685 / t678)
+  let t688 := ((2 : α) * n)
+  let t689 := (t688 / t674)
+  let t690 := (t688 / t676)
+  let t692 := (sabs t674)
+  let t693 := (tmax * t692)
+  let t694 := (sabs t673)
+  let t695 := (sabs t676)
+  let t696 := (tmax * t695)
+  let t697 := (sabs t675)
+  let t698 := (sabs t678)
+  let t699 := (tmax * t698)
+  let t700 := (sabs t677)
+  let t701 := (sabs t685)
+  let t702 := (sabs t688)
+  if t692 < (1 : α) then
+    if t693 < t694 then
       .error Exc.domainError
     else
-      if t697 < (1 : α) then
-        if t698 < t699 then
+      if t695 < (1 : α) then
+        if t696 < t697 then
           .error Exc.domainError
         else
-          if t700 < (1 : α) then
-            if t701 < t702 then
+          if t698 < (1 : α) then
+            if t699 < t700 then
               .error Exc.domainError
             else
-              if t701 < t703 then
+              if t699 < t701 then
                 .error Exc.domainError
               else
-                if t695 < t704 then
+                if t693 < t702 then
                   .error Exc.domainError
                 else
-                  if t698 < t704 then
+                  if t696 < t702 then
                     .error Exc.domainError
                   else
-                    .ok (⟨t691, (0 : α), (0 : α), (0 : α), (0 : α), t692, (0 : α), (0 : α), t681, t682, t684, (-(1 : α)), (0 : α), (0 : α), t688, (0 : α)⟩)
+                    .ok (⟨t689, (0 : α), (0 : α), (0 : α), (0 : α), t690, (0 : α), (0 : α), t679, t680, t682, (-(1 : α)), (0 : α), (0 : α), t686, (0 : α)⟩)
           else
-            if t695 < t704 then
+            if t693 < t702 then
               .error Exc.domainError
             else
-              if t698 < t704 then
+              if t696 < t702 then
                 .error Exc.domainError
               else
-                .ok (⟨t691, (0 : α), (0 : α), (0 : α), (0 : α), t692, (0 : α), (0 : α), t681, t682, t684, (-(1 : α)), (0 : α), (0 : α), t688, (0 : α)⟩)
+                .ok (⟨t689, (0 : α), (0 : α), (0 : α), (0 : α), t690, (0 : α), (0 : α), t679, t680, t682, (-(1 : α)), (0 : α), (0 : α), t686, (0 : α)⟩)
       else
-        if t700 < (1 : α) then
-          if t701 < t702 then
+        if t698 < (1 : α) then
+          if t699 < t700 then
             .error Exc.domainError
           else
-            if t701 < t703 then
+            if t699 < t701 then
               .error Exc.domainError
             else
-              if t695 < t704 then
+              if t693 < t702 then
                 .error Exc.domainError
               else
-                .ok (⟨t691, (0 : α), (0 : α), (0 : α), (0 : α), t692, (0 : α), (0 : α), t681, t682, t684, (-(1 : α)), (0 : α), (0 : α), t688, (0 : α)⟩)
+                .ok (⟨t689, (0 : α), (0 : α), (0 : α), (0 : α), t690, (0 : α), (0 : α), t679, t680, t682, (-(1 : α)), (0 : α), (0 : α), t686, (0 : α)⟩)
         else
-          if t695 < t704 then
+          if t693 < t702 then
             .error Exc.domainError
           else
-            .ok (⟨t691, (0 : α), (0 : α), (0 : α), (0 : α), t692, (0 : α), (0 : α), t681, t682, t684, (-(1 : α)), (0 : α), (0 : α), t688, (0 : α)⟩)
+            .ok (⟨t689, (0 : α), (0 : α), (0 : α), (0 : α), t690, (0 : α), (0 : α), t679, t680, t682, (-(1 : α)), (0 : α), (0 : α), t686, (0 : α)⟩)
   else
-    if t697 < (1 : α) then
-      if t698 < t699 then
+    if t695 < (1 : α) then
+      if t696 < t697 then
         .error Exc.domainError
       else
-        if t700 < (1 : α) then
-          if t701 < t702 then
+        if t698 < (1 : α) then
+          if t699 < t700 then
             .error Exc.domainError
           else
-            if t701 < t703 then
+            if t699 < t701 then
               .error Exc.domainError
             else
-              if t698 < t704 then
+              if t696 < t702 then
                 .error Exc.domainError
               else
-                .ok (⟨t691, (0 : α), (0 : α), (0 : α), (0 : α), t692, (0 : α), (0 : α), t681, t682, t684, (-(1 : α)), (0 : α), (0 : α), t688, (0 : α)⟩)
+                .ok (⟨t689, (0 : α), (0 : α), (0 : α), (0 : α), t690, (0 : α), (0 : α), t679, t680, t682, (-(1 : α)), (0 : α), (0 : α), t686, (0 : α)⟩)
         else
-          if t698 < t704 then
+          if t696 < t702 then
             .error Exc.domainError
           else
-            .ok (⟨t691, (0 : α), (0 : α), (0 : α), (0 : α), t692, (0 : α), (0 : α), t681, t682, t684, (-(1 : α)), (0 : α), (0 : α), t688, (0 : α)⟩)
+            .ok (⟨t689, (0 : α), (0 : α), (0 : α), (0 : α), t690, (0 : α), (0 : α), t679, t680, t682, (-(1 : α)), (0 : α), (0 : α), t686, (0 : α)⟩)
     else
-      if t700 < (1 : α) then
-        if t701 < t702 then
+      if t698 < (1 : α) then
+        if t699 < t700 then
           .error Exc.domainError
         else
-          if t701 < t703 then
+          if t699 < t701 then
             .error Exc.domainError
           else
-            .ok (⟨t691, (0 : α), (0 : α), (0 : α), (0 : α), t692, (0 : α), (0 : α), t681, t682, t684, (-(1 : α)), (0 : α), (0 : α), t688, (0 : α)⟩)
+            .ok (⟨t689, (0 : α), (0 : α), (0 : α), (0 : α), t690, (0 : α), (0 : α), t679, t680, t682, (-(1 : α)), (0 : α), (0 : α), t686, (0 : α)⟩)
       else
-        .ok (⟨t691, (0 : α), (0 : α), (0 : α), (0 : α), t692, (0 : α), (0 : α), t681, t682, t684, (-(1 : α)), (0 : α), (0 : α), t688, (0 : α)⟩)
+        .ok (⟨t689, (0 : α), (0 : α), (0 : α), (0 : α), t690, (0 : α), (0 : α), t679, t680, t682, (-(1 : α)), (0 : α), (0 : α), t686, (0 : α)⟩)
 
 /-- extracted from the C++ template at T = Sym; 2 path(s) -/
 def C07.Frustum.projectPointToScreen_persp {α : Type} [Add α] [Sub α] [Mul α] [Div α] [Neg α] [DecidableEq α] [OfNat α 0] [OfNat α 2] (n : α) (f : α) (l : α) (r : α) (t : α) (b : α) (p : V3 α) : (V2 α) :=
-  let t711 := (l - r)
-  let t715 := (b - t)
-  let t718 := (-p.z)
+  let t709 := (l - r)
+  let t713 := (b - t)
+  let t716 := (-p.z)
   if p.z = (0 : α) then
-    ⟨(((l - ((2 : α) * p.x)) + r) / t711), (((b - ((2 : α) * p.y)) + t) / t715)⟩
+    ⟨(((l - ((2 : α) * p.x)) + r) / t709), (((b - ((2 : α) * p.y)) + t) / t713)⟩
   else
-    ⟨(((l - ((2 : α) * ((p.x * n) / t718))) + r) / t711), (((b - ((2 : α) * ((p.y * n) / t718))) + t) / t715)⟩
+    ⟨(((l - ((2 : α) * ((p.x * n) / t716))) + r) / t709), (((b - ((2 : α) * ((p.y * n) / t716))) + t) / t713)⟩
 
 /-- extracted from the C++ template at T = Sym; 14 path(s) -/
 def C07.Frustum.projectPointToScreenExc_persp {α : Type} [Add α] [Sub α] [Mul α] [Div α] [Neg α] [LT α] [DecidableLT α] [DecidableEq α] [OfNat α 0] [OfNat α 1] [OfNat α 2] (tmax : α) (n : α) (f : α) (l : α) (r : α) (t : α) (b : α) (p : V3 α) : Except Exc (V2 α) :=
-  let t710 := ((l - ((2 : α) * p.x)) + r)
-  let t711 := (l - r)
-  let t714 := ((b - ((2 : α) * p.y)) + t)
-  let t715 := (b - t)
-  let t716 := (t714 / t715)
-  let t717 := (t710 / t711)
-  let t718 := (-p.z)
-  let t725 := ((l - ((2 : α) * ((p.x * n) / t718))) + r)
-  let t728 := ((b - ((2 : α) * ((p.y * n) / t718))) + t)
-  let t729 := (t728 / t715)
-  let t730 := (t725 / t711)
-  let t731 := (sabs t711)
-  let t732 := (tmax * t731)
-  let t733 := (sabs t710)
-  let t734 := (sabs t715)
-  let t735 := (tmax * t734)
-  let t736 := (sabs t714)
-  let t737 := (sabs t725)
-  let t738 := (sabs t728)
+  let t708 := ((l - ((2 : α) * p.x)) + r)
+  let t709 := (l - r)
+  let t712 := ((b - ((2 : α) * p.y)) + t)
+  let t713 := (b - t)
+  let t714 := (t712 / t713)
+  let t715 := (t708 / t709)
+  let t716 := (-p.z)
+  let t723 := ((l - ((2 : α) * ((p.x * n) / t716))) + r)
+  let t726 := ((b - ((2 : α) * ((p.y * n) / t716))) + t)
+  let t727 := (t726 / t713)
+  let t728 := (t723 / t709)
+  let t729 := (sabs t709)
+  let t730 := (tmax * t729)
+  let t731 := (sabs t708)
+  let t732 := (sabs t713)
+  let t733 := (tmax * t732)
+  let t734 := (sabs t712)
+  let t735 := (sabs t723)
+  let t736 := (sabs t726)
   if p.z = (0 : α) then
-    if t731 < (1 : α) then
-      if t732 < t733 then
+    if t729 < (1 : α) then
+      if t730 < t731 then
         .error Exc.domainError
       else
-        if t734 < (1 : α) then
-          if t735 < t736 then
+        if t732 < (1 : α) then
+          if t733 < t734 then
             .error Exc.domainError
           else
-            .ok (⟨t717, t716⟩)
+            .ok (⟨t715, t714⟩)
         else
-          .ok (⟨t717, t716⟩)
+          .ok (⟨t715, t714⟩)
     else
-      if t734 < (1 : α) then
-        if t735 < t736 then
+      if t732 < (1 : α) then
+        if t733 < t734 then
           .error Exc.domainError
         else
-          .ok (⟨t717, t716⟩)
+          .ok (⟨t715, t714⟩)
       else
-        .ok (⟨t717, t716⟩)
+        .ok (⟨t715, t714⟩)
   else
-    if t731 < (1 : α) then
-      if t732 < t737 then
+    if t729 < (1 : α) then
+      if t730 < t735 then
         .error Exc.domainError
       else
-        if t734 < (1 : α) then
-          if t735 < t738 then
+        if t732 < (1 : α) then
+          if t733 < t736 then
             .error Exc.domainError
           else
-            .ok (⟨t730, t729⟩)
+            .ok (⟨t728, t727⟩)
         else
-          .ok (⟨t730, t729⟩)
+          .ok (⟨t728, t727⟩)
     else
-      if t734 < (1 : α) then
-        if t735 < t738 then
+      if t732 < (1 : α) then
+        if t733 < t736 then
           .error Exc.domainError
         else
-          .ok (⟨t730, t729⟩)
+          .ok (⟨t728, t727⟩)
       else
-        .ok (⟨t730, t729⟩)
+        .ok (⟨t728, t727⟩)
 
 /-- extracted from the C++ template at T = Sym; 1 path(s) -/
 def C07.Frustum.normalizedZToDepth_persp {α : Type} [Sub α] [Mul α] [Div α] [OfNat α 1] [OfNat α 2] (n : α) (f : α) (l : α) (r : α) (t : α) (b : α) (z : α) : α :=
@@ -197,19 +197,19 @@ def C07.Frustum.normalizedZToDepth_persp {α : Type} [Sub α] [Mul α] [Div α] 
 
 /-- extracted from the C++ template at T = Sym; 3 path(s) -/
 def C07.Frustum.normalizedZToDepthExc_persp {α : Type} [Sub α] [Mul α] [Div α] [Neg α] [LT α] [DecidableLT α] [OfNat α 0] [OfNat α 1] [OfNat α 2] (tmax : α) (n : α) (f : α) (l : α) (r : α) (t : α) (b : α) (z : α) : Except Exc α :=
-  let t743 := (((2 : α) * f) * n)
-  let t746 := (((((z * (2 : α)) - (1 : α)) * (f - n)) - f) - n)
-  let t747 := (t743 / t746)
-  let t748 := (sabs t746)
-  let t749 := (tmax * t748)
-  let t750 := (sabs t743)
-  if t748 < (1 : α) then
-    if t749 < t750 then
+  let t741 := (((2 : α) * f) * n)
+  let t744 := (((((z * (2 : α)) - (1 : α)) * (f - n)) - f) - n)
+  let t745 := (t741 / t744)
+  let t746 := (sabs t744)
+  let t747 := (tmax * t746)
+  let t748 := (sabs t741)
+  if t746 < (1 : α) then
+    if t747 < t748 then
       .error Exc.domainError
     else
-      .ok (t747)
+      .ok (t745)
   else
-    .ok (t747)
+    .ok (t745)
 
 /-- extracted from the C++ template at T = Sym; 1 path(s) -/
 def C07.Frustum.ZToDepth_5_0_10_persp {α : Type} [Sub α] [Mul α] [Div α] [OfNat α 0] [OfNat α 1] [OfNat α 2] [OfNat α 5] [OfNat α 10] (n : α) (f : α) (l : α) (r : α) (t : α) (b : α) : α :=
@@ -217,129 +217,129 @@ def C07.Frustum.ZToDepth_5_0_10_persp {α : Type} [Sub α] [Mul α] [Div α] [Of
 
 /-- extracted from the C++ template at T = Sym; 3 path(s) -/
 def C07.Frustum.ZToDepthExc_5_0_10_persp {α : Type} [Sub α] [Mul α] [Div α] [Neg α] [LT α] [DecidableLT α] [OfNat α 0] [OfNat α 1] [OfNat α 2] [OfNat α 5] [OfNat α 10] (tmax : α) (n : α) (f : α) (l : α) (r : α) (t : α) (b : α) : Except Exc α :=
-  let t743 := (((2 : α) * f) * n)
-  let t750 := (sabs t743)
-  let t759 := ((((((((5 : α) - (0 : α)) / (10 : α)) * (2 : α)) - (1 : α)) * (f - n)) - f) - n)
-  let t760 := (t743 / t759)
-  let t761 := (sabs t759)
-  let t762 := (tmax * t761)
-  if t761 < (1 : α) then
-    if t762 < t750 then
+  let t741 := (((2 : α) * f) * n)
+  let t748 := (sabs t741)
+  let t757 := ((((((((5 : α) - (0 : α)) / (10 : α)) * (2 : α)) - (1 : α)) * (f - n)) - f) - n)
+  let t758 := (t741 / t757)
+  let t759 := (sabs t757)
+  let t760 := (tmax * t759)
+  if t759 < (1 : α) then
+    if t760 < t748 then
       .error Exc.domainError
     else
-      .ok (t760)
+      .ok (t758)
   else
-    .ok (t760)
+    .ok (t758)
 
 /-- extracted from the C++ template at T = Sym; 1 path(s) -/
 def C07.Frustum.projectionMatrix_ortho {α : Type} [Add α] [Sub α] [Div α] [Neg α] [OfNat α 0] [OfNat α 1] [OfNat α 2] (n : α) (f : α) (l : α) (r : α) (t : α) (b : α) : (M44 α) :=
-  let t676 := (r - l)
-  let t678 := (t - b)
-  let t680 := (f - n)
-  ⟨((2 : α) / t676), (0 : α), (0 : α), (0 : α), (0 : α), ((2 : α) / t678), (0 : α), (0 : α), (0 : α), (0 : α), ((-(2 : α)) / t680), (0 : α), ((-(r + l)) / t676), ((-(t + b)) / t678), ((-(f + n)) / t680), (1 : α)⟩
+  let t674 := (r - l)
+  let t676 := (t - b)
+  let t678 := (f - n)
+  ⟨((2 : α) / t674), (0 : α), (0 : α), (0 : α), (0 : α), ((2 : α) / t676), (0 : α), (0 : α), (0 : α), (0 : α), ((-(2 : α)) / t678), (0 : α), ((-(r + l)) / t674), ((-(t + b)) / t676), ((-(f + n)) / t678), (1 : α)⟩
 
 /-- extracted from the C++ template at T = Sym; 27 path(s) -/
 def C07.Frustum.projectionMatrixExc_ortho {α : Type} [Add α] [Sub α] [Mul α] [Div α] [Neg α] [LT α] [DecidableLT α] [OfNat α 0] [OfNat α 1] [OfNat α 2] (tmax : α) (n : α) (f : α) (l : α) (r : α) (t : α) (b : α) : Except Exc (M44 α) :=
-  let t675 := (r + l)
-  let t676 := (r - l)
-  let t677 := (t + b)
-  let t678 := (t - b)
-  let t679 := (f + n)
-  let t680 := (f - n)
-  let t684 := ((-t679) / t680)
-  let t694 := (sabs t676)
-  let t695 := (tmax * t694)
-  let t696 := (sabs t675)
-  let t697 := (sabs t678)
-  let t698 := (tmax * t697)
-  let t699 := (sabs t677)
-  let t700 := (sabs t680)
-  let t701 := (tmax * t700)
-  let t702 := (sabs t679)
+  let t673 := (r + l)
+  let t674 := (r - l)
+  let t675 := (t + b)
+  let t676 := (t - b)
+  let t677 := (f + n)
+  let t678 := (f - n)
+  let t682 := ((-t677) / t678)
+  let t692 := (sabs t674)
+  let t693 := (tmax * t692)
+  let t694 := (sabs t673)
+  let t695 := (sabs t676)
+  let t696 := (tmax * t695)
+  let t697 := (sabs t675)
+  let t698 := (sabs t678)
+  let t699 := (tmax * t698)
+  let t700 := (sabs t677)
+  let t762 := ((-t673) / t674)
   let t764 := ((-t675) / t676)
-  let t766 := ((-t677) / t678)
-  let t767 := ((2 : α) / t676)
-  let t768 := ((2 : α) / t678)
-  let t769 := ((-(2 : α)) / t680)
-  if t694 < (1 : α) then
-    if t695 < t696 then
+  let t765 := ((2 : α) / t674)
+  let t766 := ((2 : α) / t676)
+  let t767 := ((-(2 : α)) / t678)
+  if t692 < (1 : α) then
+    if t693 < t694 then
       .error Exc.domainError
     else
-      if t697 < (1 : α) then
-        if t698 < t699 then
+      if t695 < (1 : α) then
+        if t696 < t697 then
           .error Exc.domainError
         else
-          if t700 < (1 : α) then
-            if t701 < t702 then
+          if t698 < (1 : α) then
+            if t699 < t700 then
               .error Exc.domainError
             else
-              if t695 < (2 : α) then
+              if t693 < (2 : α) then
                 .error Exc.domainError
               else
-                if t698 < (2 : α) then
+                if t696 < (2 : α) then
                   .error Exc.domainError
                 else
-                  if t701 < (2 : α) then
+                  if t699 < (2 : α) then
                     .error Exc.domainError
                   else
-                    .ok (⟨t767, (0 : α), (0 : α), (0 : α), (0 : α), t768, (0 : α), (0 : α), (0 : α), (0 : α), t769, (0 : α), t764, t766, t684, (1 : α)⟩)
+                    .ok (⟨t765, (0 : α), (0 : α), (0 : α), (0 : α), t766, (0 : α), (0 : α), (0 : α), (0 : α), t767, (0 : α), t762, t764, t682, (1 : α)⟩)
           else
-            if t695 < (2 : α) then
+            if t693 < (2 : α) then
               .error Exc.domainError
             else
-              if t698 < (2 : α) then
+              if t696 < (2 : α) then
                 .error Exc.domainError
               else
-                .ok (⟨t767, (0 : α), (0 : α), (0 : α), (0 : α), t768, (0 : α), (0 : α), (0 : α), (0 : α), t769, (0 : α), t764, t766, t684, (1 : α)⟩)
+                .ok (⟨t765, (0 : α), (0 : α), (0 : α), (0 : α), t766, (0 : α), (0 : α), (0 : α), (0 : α), t767, (0 : α), t762, t764, t682, (1 : α)⟩)
       else
-        if t700 < (1 : α) then
-          if t701 < t702 then
+        if t698 < (1 : α) then
+          if t699 < t700 then
             .error Exc.domainError
           else
-            if t695 < (2 : α) then
+            if t693 < (2 : α) then
               .error Exc.domainError
             else
-              if t701 < (2 : α) then
+              if t699 < (2 : α) then
                 .error Exc.domainError
               else
-                .ok (⟨t767, (0 : α), (0 : α), (0 : α), (0 : α), t768, (0 : α), (0 : α), (0 : α), (0 : α), t769, (0 : α), t764, t766, t684, (1 : α)⟩)
+                .ok (⟨t765, (0 : α), (0 : α), (0 : α), (0 : α), t766, (0 : α), (0 : α), (0 : α), (0 : α), t767, (0 : α), t762, t764, t682, (1 : α)⟩)
         else
-          if t695 < (2 : α) then
+          if t693 < (2 : α) then
             .error Exc.domainError
           else
-            .ok (⟨t767, (0 : α), (0 : α), (0 : α), (0 : α), t768, (0 : α), (0 : α), (0 : α), (0 : α), t769, (0 : α), t764, t766, t684, (1 : α)⟩)
+            .ok (⟨t765, (0 : α), (0 : α), (0 : α), (0 : α), t766, (0 : α), (0 : α), (0 : α), (0 : α), t767, (0 : α), t762, t764, t682, (1 : α)⟩)
   else
-    if t697 < (1 : α) then
-      if t698 < t699 then
+    if t695 < (1 : α) then
+      if t696 < t697 then
         .error Exc.domainError
       else
-        if t700 < (1 : α) then
-          if t701 < t702 then
+        if t698 < (1 : α) then
+          if t699 < t700 then
             .error Exc.domainError
           else
-            if t698 < (2 : α) then
+            if t696 < (2 : α) then
               .error Exc.domainError
             else
-              if t701 < (2 : α) then
+              if t699 < (2 : α) then
                 .error Exc.domainError
               else
-                .ok (⟨t767, (0 : α), (0 : α), (0 : α), (0 : α), t768, (0 : α), (0 : α), (0 : α), (0 : α), t769, (0 : α), t764, t766, t684, (1 : α)⟩)
+                .ok (⟨t765, (0 : α), (0 : α), (0 : α), (0 : α), t766, (0 : α), (0 : α), (0 : α), (0 : α), t767, (0 : α), t762, t764, t682, (1 : α)⟩)
         else
-          if t698 < (2 : α) then
+          if t696 < (2 : α) then
             .error Exc.domainError
           else
-            .ok (⟨t767, (0 : α), (0 : α), (0 : α), (0 : α), t768, (0 : α), (0 : α), (0 : α), (0 : α), t769, (0 : α), t764, t766, t684, (1 : α)⟩)
+            .ok (⟨t765, (0 : α), (0 : α), (0 : α), (0 : α), t766, (0 : α), (0 : α), (0 : α), (0 : α), t767, (0 : α), t762, t764, t682, (1 : α)⟩)
     else
-      if t700 < (1 : α) then
-        if t701 < t702 then
+      if t698 < (1 : α) then
+        if t699 < t700 then
           .error Exc.domainError
         else
-          if t701 < (2 : α) then
+          if t699 < (2 : α) then
             .error Exc.domainError
           else
-            .ok (⟨t767, (0 : α), (0 : α), (0 : α), (0 : α), t768, (0 : α), (0 : α), (0 : α), (0 : α), t769, (0 : α), t764, t766, t684, (1 : α)⟩)
+            .ok (⟨t765, (0 : α), (0 : α), (0 : α), (0 : α), t766, (0 : α), (0 : α), (0 : α), (0 : α), t767, (0 : α), t762, t764, t682, (1 : α)⟩)
       else
-        .ok (⟨t767, (0 : α), (0 : α), (0 : α), (0 : α), t768, (0 : α), (0 : α), (0 : α), (0 : α), t769, (0 : α), t764, t766, t684, (1 : α)⟩)
+        .ok (⟨t765, (0 : α), (0 : α), (0 : α), (0 : α), t766, (0 : α), (0 : α), (0 : α), (0 : α), t767, (0 : α), t762, t764, t682, (1 : α)⟩)
 
 /-- extracted from the C++ template at T = Sym; 1 path(s) -/
 def C07.Frustum.projectPointToScreen_ortho {α : Type} [Add α] [Sub α] [Mul α] [Div α] [OfNat α 2] (n : α) (f : α) (l : α) (r : α) (t : α) (b : α) (p : V3 α) : (V2 α) :=
@@ -347,37 +347,37 @@ def C07.Frustum.projectPointToScreen_ortho {α : Type} [Add α] [Sub α] [Mul α
 
 /-- extracted from the C++ template at T = Sym; 7 path(s) -/
 def C07.Frustum.projectPointToScreenExc_ortho {α : Type} [Add α] [Sub α] [Mul α] [Div α] [Neg α] [LT α] [DecidableLT α] [OfNat α 0] [OfNat α 1] [OfNat α 2] (tmax : α) (n : α) (f : α) (l : α) (r : α) (t : α) (b : α) (p : V3 α) : Except Exc (V2 α) :=
-  let t710 := ((l - ((2 : α) * p.x)) + r)
-  let t711 := (l - r)
-  let t714 := ((b - ((2 : α) * p.y)) + t)
-  let t715 := (b - t)
-  let t716 := (t714 / t715)
-  let t717 := (t710 / t711)
-  let t731 := (sabs t711)
-  let t732 := (tmax * t731)
-  let t733 := (sabs t710)
-  let t734 := (sabs t715)
-  let t735 := (tmax * t734)
-  let t736 := (sabs t714)
-  if t731 < (1 : α) then
-    if t732 < t733 then
+  let t708 := ((l - ((2 : α) * p.x)) + r)
+  let t709 := (l - r)
+  let t712 := ((b - ((2 : α) * p.y)) + t)
+  let t713 := (b - t)
+  let t714 := (t712 / t713)
+  let t715 := (t708 / t709)
+  let t729 := (sabs t709)
+  let t730 := (tmax * t729)
+  let t731 := (sabs t708)
+  let t732 := (sabs t713)
+  let t733 := (tmax * t732)
+  let t734 := (sabs t712)
+  if t729 < (1 : α) then
+    if t730 < t731 then
       .error Exc.domainError
     else
-      if t734 < (1 : α) then
-        if t735 < t736 then
+      if t732 < (1 : α) then
+        if t733 < t734 then
           .error Exc.domainError
         else
-          .ok (⟨t717, t716⟩)
+          .ok (⟨t715, t714⟩)
       else
-        .ok (⟨t717, t716⟩)
+        .ok (⟨t715, t714⟩)
   else
-    if t734 < (1 : α) then
-      if t735 < t736 then
+    if t732 < (1 : α) then
+      if t733 < t734 then
         .error Exc.domainError
       else
-        .ok (⟨t717, t716⟩)
+        .ok (⟨t715, t714⟩)
     else
-      .ok (⟨t717, t716⟩)
+      .ok (⟨t715, t714⟩)
 
 /-- extracted from the C++ template at T = Sym; 1 path(s) -/
 def C07.Frustum.normalizedZToDepth_ortho {α : Type} [Add α] [Sub α] [Mul α] [Div α] [Neg α] [OfNat α 1] [OfNat α 2] (n : α) (f : α) (l : α) (r : α) (t : α) (b : α) (z : α) : α :=
@@ -401,19 +401,19 @@ def C07.Frustum.ZToDepth_12_0_10_persp {α : Type} [Sub α] [Mul α] [Div α] [O
 
 /-- extracted from the C++ template at T = Sym; 3 path(s) -/
 def C07.Frustum.ZToDepthExc_12_0_10_persp {α : Type} [Sub α] [Mul α] [Div α] [Neg α] [LT α] [DecidableLT α] [OfNat α 0] [OfNat α 1] [OfNat α 2] [OfNat α 10] (tmax : α) (n : α) (f : α) (l : α) (r : α) (t : α) (b : α) : Except Exc α :=
-  let t743 := (((2 : α) * f) * n)
-  let t750 := (sabs t743)
-  let t782 := ((((((((2 : α) - (0 : α)) / (10 : α)) * (2 : α)) - (1 : α)) * (f - n)) - f) - n)
-  let t783 := (t743 / t782)
-  let t784 := (sabs t782)
-  let t785 := (tmax * t784)
-  if t784 < (1 : α) then
-    if t785 < t750 then
+  let t741 := (((2 : α) * f) * n)
+  let t748 := (sabs t741)
+  let t780 := ((((((((2 : α) - (0 : α)) / (10 : α)) * (2 : α)) - (1 : α)) * (f - n)) - f) - n)
+  let t781 := (t741 / t780)
+  let t782 := (sabs t780)
+  let t783 := (tmax * t782)
+  if t782 < (1 : α) then
+    if t783 < t748 then
       .error Exc.domainError
     else
-      .ok (t783)
+      .ok (t781)
   else
-    .ok (t783)
+    .ok (t781)
 
 /-- extracted from the C++ template at T = Sym; 1 path(s) -/
 def C07.Frustum.ZToDepth_3_7_7_persp {α : Type} [Sub α] [Mul α] [Div α] [OfNat α 0] [OfNat α 1] [OfNat α 2] [OfNat α 3] [OfNat α 7] (n : α) (f : α) (l : α) (r : α) (t : α) (b : α) : α :=
@@ -429,37 +429,37 @@ def C07.Frustum.localToScreen {α : Type} [Add α] [Sub α] [Mul α] [Div α] [O
 
 /-- extracted from the C++ template at T = Sym; 7 path(s) -/
 def C07.Frustum.localToScreenExc {α : Type} [Add α] [Sub α] [Mul α] [Div α] [Neg α] [LT α] [DecidableLT α] [OfNat α 0] [OfNat α 1] [OfNat α 2] (tmax : α) (n : α) (f : α) (l : α) (r : α) (t : α) (b : α) (p : V2 α) : Except Exc (V2 α) :=
-  let t710 := ((l - ((2 : α) * p.x)) + r)
-  let t711 := (l - r)
-  let t714 := ((b - ((2 : α) * p.y)) + t)
-  let t715 := (b - t)
-  let t716 := (t714 / t715)
-  let t717 := (t710 / t711)
-  let t731 := (sabs t711)
-  let t732 := (tmax * t731)
-  let t733 := (sabs t710)
-  let t734 := (sabs t715)
-  let t735 := (tmax * t734)
-  let t736 := (sabs t714)
-  if t731 < (1 : α) then
-    if t732 < t733 then
+  let t708 := ((l - ((2 : α) * p.x)) + r)
+  let t709 := (l - r)
+  let t712 := ((b - ((2 : α) * p.y)) + t)
+  let t713 := (b - t)
+  let t714 := (t712 / t713)
+  let t715 := (t708 / t709)
+  let t729 := (sabs t709)
+  let t730 := (tmax * t729)
+  let t731 := (sabs t708)
+  let t732 := (sabs t713)
+  let t733 := (tmax * t732)
+  let t734 := (sabs t712)
+  if t729 < (1 : α) then
+    if t730 < t731 then
       .error Exc.domainError
     else
-      if t734 < (1 : α) then
-        if t735 < t736 then
+      if t732 < (1 : α) then
+        if t733 < t734 then
           .error Exc.domainError
         else
-          .ok (⟨t717, t716⟩)
+          .ok (⟨t715, t714⟩)
       else
-        .ok (⟨t717, t716⟩)
+        .ok (⟨t715, t714⟩)
   else
-    if t734 < (1 : α) then
-      if t735 < t736 then
+    if t732 < (1 : α) then
+      if t733 < t734 then
         .error Exc.domainError
       else
-        .ok (⟨t717, t716⟩)
+        .ok (⟨t715, t714⟩)
     else
-      .ok (⟨t717, t716⟩)
+      .ok (⟨t715, t714⟩)
 
 /-- extracted from the C++ template at T = Sym; 1 path(s) -/
 def C07.Frustum.screenRadius {α : Type} [Mul α] [Div α] [Neg α] (n : α) (f : α) (l : α) (r : α) (t : α) (b : α) (p : V3 α) (radius : α) : α :=
@@ -467,16 +467,16 @@ def C07.Frustum.screenRadius {α : Type} [Mul α] [Div α] [Neg α] (n : α) (f 
 
 /-- extracted from the C++ template at T = Sym; 3 path(s) -/
 def C07.Frustum.screenRadiusExc {α : Type} [Mul α] [Div α] [Neg α] [LT α] [DecidableLT α] [OfNat α 0] [OfNat α 1] (tmax : α) (n : α) (f : α) (l : α) (r : α) (t : α) (b : α) (p : V3 α) (radius : α) : Except Exc α :=
-  let t797 := (-n)
-  let t799 := (radius * (t797 / p.z))
-  let t800 := (sabs p.z)
-  let t801 := (tmax * t800)
-  let t802 := (sabs t797)
-  if (1 : α) < t800 then
-    .ok (t799)
+  let t795 := (-n)
+  let t797 := (radius * (t795 / p.z))
+  let t798 := (sabs p.z)
+  let t799 := (tmax * t798)
+  let t800 := (sabs t795)
+  if (1 : α) < t798 then
+    .ok (t797)
   else
-    if t802 < t801 then
-      .ok (t799)
+    if t800 < t799 then
+      .ok (t797)
     else
       .error Exc.domainError
 
@@ -486,16 +486,16 @@ def C07.Frustum.worldRadius {α : Type} [Mul α] [Div α] [Neg α] (n : α) (f :
 
 /-- extracted from the C++ template at T = Sym; 3 path(s) -/
 def C07.Frustum.worldRadiusExc {α : Type} [Mul α] [Div α] [Neg α] [LT α] [DecidableLT α] [OfNat α 0] [OfNat α 1] (tmax : α) (n : α) (f : α) (l : α) (r : α) (t : α) (b : α) (p : V3 α) (radius : α) : Except Exc α :=
-  let t797 := (-n)
-  let t800 := (sabs p.z)
-  let t802 := (sabs t797)
-  let t804 := (radius * (p.z / t797))
-  let t805 := (tmax * t802)
-  if (1 : α) < t802 then
-    .ok (t804)
+  let t795 := (-n)
+  let t798 := (sabs p.z)
+  let t800 := (sabs t795)
+  let t802 := (radius * (p.z / t795))
+  let t803 := (tmax * t800)
+  if (1 : α) < t800 then
+    .ok (t802)
   else
-    if t800 < t805 then
-      .ok (t804)
+    if t798 < t803 then
+      .ok (t802)
     else
       .error Exc.domainError
 
@@ -505,46 +505,46 @@ def C07.Frustum.aspect {α : Type} [Sub α] [Div α] (n : α) (f : α) (l : α) 
 
 /-- extracted from the C++ template at T = Sym; 3 path(s) -/
 def C07.Frustum.aspectExc {α : Type} [Sub α] [Mul α] [Div α] [Neg α] [LT α] [DecidableLT α] [OfNat α 0] [OfNat α 1] (tmax : α) (n : α) (f : α) (l : α) (r : α) (t : α) (b : α) : Except Exc α :=
-  let t676 := (r - l)
-  let t678 := (t - b)
-  let t694 := (sabs t676)
-  let t697 := (sabs t678)
-  let t698 := (tmax * t697)
-  let t806 := (t676 / t678)
-  if t697 < (1 : α) then
-    if t698 < t694 then
+  let t674 := (r - l)
+  let t676 := (t - b)
+  let t692 := (sabs t674)
+  let t695 := (sabs t676)
+  let t696 := (tmax * t695)
+  let t804 := (t674 / t676)
+  if t695 < (1 : α) then
+    if t696 < t692 then
       .error Exc.domainError
     else
-      .ok (t806)
+      .ok (t804)
   else
-    .ok (t806)
+    .ok (t804)
 
 /-- extracted from the C++ template at T = Sym; 2 path(s) -/
 def C07.Frustum.setFov {α : Type} [Sub α] [Mul α] [Div α] [Neg α] [DecidableEq α] [OfNat α 0] [OfNat α 2] (tan : α → α) (n : α) (f : α) (fovx : α) (fovy : α) (aspect : α) : (α × α × α × α × α × α × Bool) :=
-  let t814 := (n * (tan (fovy / (2 : α))))
-  let t815 := (-t814)
-  let t818 := (((t814 - t815) * aspect) / (2 : α))
-  let t822 := (n * (tan (fovx / (2 : α))))
-  let t823 := (-t822)
-  let t826 := (((t822 - t823) / aspect) / (2 : α))
+  let t812 := (n * (tan (fovy / (2 : α))))
+  let t813 := (-t812)
+  let t816 := (((t812 - t813) * aspect) / (2 : α))
+  let t820 := (n * (tan (fovx / (2 : α))))
+  let t821 := (-t820)
+  let t824 := (((t820 - t821) / aspect) / (2 : α))
   if fovx = (0 : α) then
-    (n, f, (-t818), t818, t814, t815, false)
+    (n, f, (-t816), t816, t812, t813, false)
   else
-    (n, f, t823, t822, t826, (-t826), false)
+    (n, f, t821, t820, t824, (-t824), false)
 
 /-- extracted from the C++ template at T = Sym; 3 path(s) -/
 def C07.Frustum.setFovExc {α : Type} [Sub α] [Mul α] [Div α] [Neg α] [DecidableEq α] [OfNat α 0] [OfNat α 2] (tan : α → α) (n : α) (f : α) (fovx : α) (fovy : α) (aspect : α) : Except Exc (α × α × α × α × α × α × Bool) :=
-  let t814 := (n * (tan (fovy / (2 : α))))
-  let t815 := (-t814)
-  let t818 := (((t814 - t815) * aspect) / (2 : α))
-  let t822 := (n * (tan (fovx / (2 : α))))
-  let t823 := (-t822)
-  let t826 := (((t822 - t823) / aspect) / (2 : α))
+  let t812 := (n * (tan (fovy / (2 : α))))
+  let t813 := (-t812)
+  let t816 := (((t812 - t813) * aspect) / (2 : α))
+  let t820 := (n * (tan (fovx / (2 : α))))
+  let t821 := (-t820)
+  let t824 := (((t820 - t821) / aspect) / (2 : α))
   if fovx = (0 : α) then
-    .ok ((n, f, (-t818), t818, t814, t815, false))
+    .ok ((n, f, (-t816), t816, t812, t813, false))
   else
     if fovy = (0 : α) then
-      .ok ((n, f, t823, t822, t826, (-t826), false))
+      .ok ((n, f, t821, t820, t824, (-t824), false))
     else
       .error Exc.domainError
 
